@@ -255,7 +255,7 @@ def stepD (st : DSt) (fs : List String) : DSt × String :=
     -- a use limit can only be promised for a token whose uses are counted (a stored entry): the request for a use-limited
     -- batch token is refused (`C19.limit_needs_counted_uses`), whether the limit comes from the request or from the role
     (st, match how with | _ => "refused")
-  | ["orphanrace", n] =>
+  | ["orphanrace", n, _at] =>
     -- a rewrite of the entry that is not a use (orphaning) interleaved with a use: the count is the uses' alone
     -- (`C19.non_use_rewrite_preserves_count`)
     match n.toNat? with
